@@ -106,10 +106,44 @@ def run(chk):
     rets = [s for s in walk_no_nested(ic.node) if isinstance(s, ast.Return)]
     r2.require(all(unparse(r.value) == xname for r in rets), f"{ic.key}|returns-x", ic.where(), "_interpolate_col must return the (partially filled) input series")
 
-    # ------------------------------------------------------------------ R17.4
+    # ------------------------------------------------------------------ R17.4 (interpreted: which columns are interpolated, which flags are announced)
+    from engine.absint import AbsObj, ModuleEnv, Sym, SymWorld, canon, sym_root
+    from engine.pyinterp import Function, Interp, InterpRaised, StubCall, Unsupported
     ip = chk.repo.func(HOURLY_DATA, "_HourlyData._interpolate")
-    t = unparse(ip.node)
-    r4.require("self._to_be_interpolated_columns = ['temperature', 'observed']" in t and "if 'ghi' in df.columns:" in t and "self._to_be_interpolated_columns.append('ghi')" in t, f"{ip.key}|default-columns", ip.where(),
-               "default interpolated columns must be temperature and observed, plus ghi when present")
-    r4.require("df = interpolate(df, columns=self._to_be_interpolated_columns)" in t, f"{ip.key}|calls-interpolate", ip.where(), "_interpolate must call interpolate(df, columns=<the columns>)")
-    r4.require("self._outputs += [f'interpolated_{col}']" in t, f"{ip.key}|flag-outputs", ip.where(), "each interpolated column must contribute its interpolated_<col> flag to the outputs")
+    bad_cols, bad_flags, bad_call = [], [], []
+    n_sc = 0
+    for cols in ({"temperature", "observed"}, {"temperature", "observed", "ghi"}, {"temperature", "observed", "ghi", "interpolated_ghi"}, {"temperature", "observed", "interpolated_temperature"}):
+        for custom in (None, ["temperature"]):
+            n_sc += 1
+            w = SymWorld()
+            df = sym_root(w, "df")
+            w.members["df.columns"] = set(cols)
+            calls = []
+
+            def _ip(frame, columns=None, **k):
+                calls.append((canon(frame), list(columns) if columns is not None else None))
+                return Sym(w, "call", sym_root(w, "interpolate"), (frame,), ())
+            me = AbsObj({"_HourlyData"}, _kwargs=({"to_be_interpolated_columns": list(custom)} if custom else {}), _outputs=["temperature", "observed"], _to_be_interpolated_columns=None)
+            itp = Interp(step_limit=20_000)
+            env = ModuleEnv(chk.repo, ip.module, itp, {"interpolate": StubCall(_ip)})
+            try:
+                res = Function(ip.node, env, itp)(me, df)
+            except InterpRaised as e:
+                bad_call.append(f"raises {e.exc_name} for columns {sorted(cols)}")
+                continue
+            except Unsupported as e:
+                raise AnalysisError(f"{ip.key}: uses an operation outside the modelled subset: {e}")
+            want_cols = list(custom) if custom else ["temperature", "observed"] + (["ghi"] if "ghi" in cols else [])
+            got_cols = list(me._to_be_interpolated_columns or [])
+            if got_cols != want_cols:
+                bad_cols.append(f"frame columns {sorted(cols)}{' custom ' + str(custom) if custom else ''}: interpolates {got_cols}, expected {want_cols}")
+            want_flags = [f"interpolated_{c_}" for c_ in want_cols if f"interpolated_{c_}" not in cols]
+            got_flags = [o_ for o_ in me._outputs if o_.startswith("interpolated_")]
+            if got_flags != want_flags:
+                bad_flags.append(f"frame columns {sorted(cols)}: announces flags {got_flags}, expected {want_flags}")
+            if calls != [("df", want_cols)] or canon(res) != "interpolate(df)":
+                bad_call.append(f"frame columns {sorted(cols)}: interpolate called as {calls}, returns {canon(res)[:60]}")
+    r4.require(not bad_cols, f"{ip.key}|default-columns", ip.where(), f"default interpolated columns must be temperature and observed, plus ghi when present (or the caller's list): {bad_cols[:2]}")
+    r4.require(not bad_call, f"{ip.key}|calls-interpolate", ip.where(), f"_interpolate must call interpolate(df, columns=<the columns>) once and return its result: {bad_call[:2]}")
+    r4.require(not bad_flags, f"{ip.key}|flag-outputs", ip.where(), f"each interpolated column must contribute its interpolated_<col> flag to the outputs (unless the frame already carries it): {bad_flags[:2]}")
+    r4.inst(f"{ip.key}|scenarios={n_sc}")
